@@ -18,8 +18,8 @@ for variant in patched clean; do
     mkdir -p "$d/zzdemo" && cp "$out"/*_test.go "$d/zzdemo/"
     demo=$(cd "$d" && go test -count=1 -tags "$tags" "$@" ./zzdemo/ 2>&1 | tail -3 | tr '\n' ' ')
   else
-    cp "$out"/*_test.go "$d/"
-    demo=$(cd "$d" && env ${DEMO_ENV:-} go test -count=1 -run "${DEMO_RUN:-Demo}" "$@" . 2>&1 | tail -3 | tr '\n' ' ')
+    cp "$out"/*_test.go "$d/${DEMO_DIR:-.}/"
+    demo=$(cd "$d" && env ${DEMO_ENV:-} go test -count=1 -run "${DEMO_RUN:-Demo}" "$@" "./${DEMO_DIR:-.}/" 2>&1 | tail -3 | tr '\n' ' ')
   fi
   res="$res | $variant demo: $demo"
   rm -rf "$d"
